@@ -544,6 +544,9 @@ func (c *Cluster) handle(b *Broker, sc *memnet.ServerConn, st *connState, r *Req
 	if act == nil {
 		act = &Action{}
 	}
+	if c.saslDrop(st, r) {
+		act.DropBeforeApply = true
+	}
 	ex.Tag = act.Tag
 	ex.ErrorCode = act.ErrorCode
 	if act.Delay > 0 {
